@@ -25,14 +25,22 @@ def m_unit(e, st, fr, t, args):
 
 
 # ---- Try / FromResidual for Result and Option ---------------------------------------------------
+def _outer_type(func):
+    """`<std::option::Option<JoinHandle<Result<..>>> as Try>::branch` -> 'Option' (the outermost type constructor)"""
+    s = func.lstrip('<').lstrip('&').strip()
+    head = re.split(r'[<( ]', s, 1)[0]
+    return head.split('::')[-1]
+
+
 def m_try_branch(e, st, fr, t, args):
     r = args[0]
-    if 'Result' in t.func.split(' as ')[0]:
+    outer = _outer_type(t.func)
+    if outer == 'Result':
         ok, err = ('v', 'Ok', 0), ('v', 'Err', 0)
         d = e.discriminant_of(st, r).v
         brk = VAgg(name='Result', vname='Err', disc=1, fields={err: e.get_field(r, err)})
         return VAgg(name='ControlFlow', disc=d, fields={('v', 'Continue', 0): e.get_field(r, ok), ('v', 'Break', 0): brk})
-    if 'Option' in t.func.split(' as ')[0]:
+    if outer == 'Option':
         d = e.discriminant_of(st, r).v
         # Option: None=0 -> Break(None), Some=1 -> Continue(v)
         dd = 1 - d if isinstance(d, int) else z3.simplify(1 - d)
@@ -43,10 +51,11 @@ def m_try_branch(e, st, fr, t, args):
 
 def m_from_residual(e, st, fr, t, args):
     r = args[0]
-    if 'Result' in t.func.split(' as ')[0]:
+    outer = _outer_type(t.func)
+    if outer == 'Result':
         err = ('v', 'Err', 0)
         return VAgg(name='Result', vname='Err', disc=1, fields={err: e.get_field(r, err)})
-    if 'Option' in t.func.split(' as ')[0]:
+    if outer == 'Option':
         return VAgg(name='Option', vname='None', disc=0)
     return NotImplemented
 
